@@ -1,6 +1,7 @@
 #!/usr/bin/env python3
 """store_c.py <Cxx> [variant] — copies a confirmed seeded change from /tmp/seed-out/<Cxx>-<V>/ into /verif/seeded/."""
-import json, sys, shutil, os
+import json, sys, shutil, os, subprocess
+HEAD = subprocess.run(['git', '-C', '/repo', 'rev-parse', '--short', 'HEAD'], capture_output=True, text=True).stdout.strip()
 pid = sys.argv[1]; x = sys.argv[2] if len(sys.argv) > 2 else 'C'
 src = f'/tmp/seed-out/{pid}-{x}'; dst = f'/verif/seeded/{pid}-{x}'
 c = json.load(open(src + '/confirm.json'))
@@ -12,7 +13,7 @@ title = [json.loads(l) for l in open('/verif/properties.jsonl') if json.loads(l)
 notes = open(f'{dst}/notes.md').read().strip().splitlines()[0]
 meta = {"property": pid, "variant": x, "breaks": title,
         "needs_to_manifest": "see notes.md (written by the sub-agent that produced the change): " + notes,
-        "confirmed_by_me": {"worktree": f"/tmp/mutc/{pid} (scratch git worktree of /repo at ce42b80, since removed)",
+        "confirmed_by_me": {"worktree": f"/tmp/mutc/{pid} (scratch git worktree of /repo at {HEAD}, since removed)",
                             "suite_with_change": c['cmd_suite'] + " -> all packages ok (exit 0)",
                             "demo_with_change": c['cmd_demo'] + f" -> FAIL (exit {c['demo_with_change_exit']})",
                             "demo_without_change": c['cmd_demo'] + " -> PASS (exit 0)", "demo_dir": c['dir']},
